@@ -89,10 +89,10 @@ def apply(t, b, keep):
     time.sleep(0.03)
 
 
-def run_history(ctx, hist, listen=None, hold=0):
+def run_history(ctx, hist, listen=None, hold=0, nofile=None):
     """`hold`: seconds the kept-open (silent) connections are left stalled before the final handshake: a *slow* peer, long enough for
     any per-connection timeout the server may have to expire while the connection is still open."""
-    t = bb.Tacd(DOMAIN, bb.ext_for(DIGEST), listen=listen)
+    t = bb.Tacd(DOMAIN, bb.ext_for(DIGEST), listen=listen, nofile=nofile)
     keep = []
     out = []
     try:
@@ -101,6 +101,17 @@ def run_history(ctx, hist, listen=None, hold=0):
                 apply(t, b, keep)
             if hold and keep:
                 time.sleep(hold)
+            if nofile:
+                # under a small descriptor limit the stalled connections are closed first: while they are open the server
+                # legitimately cannot accept anything; what counts is that it is still there and serving afterwards
+                time.sleep(0.3)
+                for s in keep:
+                    try:
+                        s.close()
+                    except OSError:
+                        pass
+                del keep[:]
+                time.sleep(0.3)
             sock = t.connect_raw()
         except (ConnectionError, OSError) as e:
             rc = t.p.poll()
@@ -145,7 +156,7 @@ def run(ctx):
     depth = 2 if ctx.quick else 4
     res.rule = ("E5: every ordered selection (with repetition) of 0..%d behaviours from the catalogue {connect+close, 20 connections aborted with a RST, garbage bytes, plain HTTP, TLS without ALPN, TLS with foreign "
                 "ALPN, ClientHello then silence (kept open, closed at the end), ClientHello then FIN, 50 concurrent stalled connections (kept open)} against a fresh release tacd (panic=abort), followed by a valid "
-                "acme-tls/1 handshake checked as in C16; plus slow peers: silent connections held open for 7 s (thorough: 7, 35, 65 s) before the final handshake. A state is the behaviour history; a transition is one connection behaviour.") % depth
+                "acme-tls/1 handshake checked as in C16; plus slow peers: silent connections held open for 7 s (thorough: 7, 35, 65 s) before the final handshake; and 50 stalled connections under a descriptor limit of 24 (closed before the final handshake). A state is the behaviour history; a transition is one connection behaviour.") % depth
     hists = []
     for n in range(depth + 1):
         hists += [list(h) for h in itertools.product(BEHAVIOURS, repeat=n)]
@@ -171,6 +182,18 @@ def run(ctx):
             res.violation(oracle, "C17|%s|%s|stalled-connections-held=%ds" % (oracle, l or "tcp", hold), ex_, "%s after history %s with the silent connections held open for %d s" % (ob, h, hold),
                           replay={"history": h, "listen": l or "tcp", "hold": hold})
     res.extra["slow_histories"] = {"holds_s": holds, "histories": len(slow)}
+    # a small file descriptor limit: accept() fails while 50 connections are stalled; once they are gone tacd must serve again
+    lim = [(h, l) for l in (None, "unix") for h in (["50-stalled"], ["50-stalled", "garbage"], ["clienthello-then-silence", "50-stalled"])]
+    with ThreadPoolExecutor(max_workers=len(lim)) as ex:
+        lresults = list(ex.map(lambda a: run_history(ctx, a[0], a[1], 0, 24), lim))
+    for (h, l), viols in zip(lim, lresults):
+        res.evaluations += 1
+        res.transitions += len(h) + 1
+        res.state_keys.add((l or "tcp", tuple(h), "nofile-24"))
+        res.outcomes["%s|nofile=24|%s" % (l or "tcp", "ok" if not viols else viols[0][0])] += 1
+        for (oracle, ex_, ob) in viols:
+            res.violation(oracle, "C17|%s|%s|descriptor-limit=24" % (oracle, l or "tcp"), ex_, "%s after history %s under RLIMIT_NOFILE=24 (stalled connections closed before the final handshake)" % (ob, h),
+                          replay={"history": h, "listen": l or "tcp", "nofile": 24})
     for listen, hs, rs in (("tcp", hists, results), ("unix", uh, uresults)):
         for h, viols in zip(hs, rs):
             res.evaluations += 1
@@ -192,10 +215,13 @@ def run(ctx):
 
 def replay(ctx, rp):
     r = rp["request"]
-    viols = run_history(ctx, r["history"], None if r.get("listen") in (None, "tcp") else "unix", r.get("hold", 0))
+    viols = run_history(ctx, r["history"], None if r.get("listen") in (None, "tcp") else "unix", r.get("hold", 0), r.get("nofile"))
     out = []
     for (o, e, b) in viols:
         h = r["history"]
+        if r.get("nofile"):
+            out.append({"oracle": o, "signature": "C17|%s|%s|descriptor-limit=%d" % (o, r.get("listen") or "tcp", r["nofile"]), "expected": e, "observed": b})
+            continue
         if r.get("hold"):
             out.append({"oracle": o, "signature": "C17|%s|%s|stalled-connections-held=%ds" % (o, r.get("listen") or "tcp", r["hold"]), "expected": e, "observed": b})
             continue
